@@ -189,6 +189,7 @@ func checkC08(c *Ctx, r *Report) {
 
 	// ---- C08-verdict
 	c04closeVerdict(c, r, "C08-verdict")
+	eofDrainRule(c, r, "C08-drain")
 
 	// ---- C08-sticky
 	r.Rule("C08-sticky", 3, "bit reader errors are sticky and consulted")
